@@ -131,23 +131,24 @@ package lexer
 //@ func (*Lexer).NextToken
 //@   requires wf(l) && token.tablesOK()
 //@   modifies l.pos, l.hadWhitespace, l.hadNewline, l.lastNewLine, l.lineNumber, map token.interning
-//@   ensures  wf(l) && token.tablesOK()
-//@   ensures  nonnil:: result != nil
+//@   ensures  @C16,C08 wf(l) && token.tablesOK()
+//@   ensures  @C16,C08 nonnil:: result != nil
 //@   ensures  monotone:: old(l.pos) <= l.pos
 //@   ensures  progress:: implies(!isEndTok(result), old(l.pos) < l.pos)
 //@   ensures  @C16 sticky:: implies(isEndTok(result), l.pos >= len(l.input) || l.input[l.pos] == 0)
 //@   witness s = l.pos after skipWhitespace#1
 //@   ensures  ws:: tokstart(l, old(l.pos), s) && s < l.pos
-//@   ensures  kinds:: implies(!isEndTok(result), s < len(l.input) && l.pos <= len(l.input) && (litTok(result) || result.tokenType == token.STRING || result.tokenType == token.LINECOMMENT || result.tokenType == token.ILLEGAL))
-//@   ensures  literal:: implies(!isEndTok(result) && litTok(result), result.literal == span(l, s, l.pos))
-//@   ensures  linecomment:: implies(result.tokenType == token.LINECOMMENT, lineCommentOK(l, s, l.pos))
-//@   ensures  string:: implies(result.tokenType == token.STRING, strTokOK(l, s, l.pos))
+//@   ensures  @C16,C08 kinds:: implies(!isEndTok(result), s < len(l.input) && l.pos <= len(l.input) && (litTok(result) || result.tokenType == token.STRING || result.tokenType == token.LINECOMMENT || result.tokenType == token.ILLEGAL))
+//@   ensures  @C16,C08 literal:: implies(!isEndTok(result) && litTok(result), result.literal == span(l, s, l.pos))
+//@   ensures  @C16,C08 linecomment:: implies(result.tokenType == token.LINECOMMENT, lineCommentOK(l, s, l.pos))
+//@   ensures  @C16,C08 string:: implies(result.tokenType == token.STRING, strTokOK(l, s, l.pos))
 //@   ensures  rawstring:: implies(result.tokenType == token.STRING && l.input[s] == '`', forall(s + 1, l.pos - 1, func(k int) bool { return l.input[k] != '`' && l.input[k] != 0 }))
-//@   ensures  blockcomment:: implies(result.tokenType == token.BLOCKCOMMENT, l.pos >= s + 2 && l.input[s] == '/' && l.input[s+1] == '*' && commentBody(l, s + 2, l.pos))
-//@   ensures  illegal:: implies(result.tokenType == token.ILLEGAL, l.pos == s + 1)
-//@   ensures  end:: implies(isEndTok(result), endOK(l, s))
-//@   ensures  endmarker:: implies(isEndTok(result), result == l.EOLEOF())
+//@   ensures  @C16,C08 blockcomment:: implies(result.tokenType == token.BLOCKCOMMENT, l.pos >= s + 2 && l.input[s] == '/' && l.input[s+1] == '*' && commentBody(l, s + 2, l.pos))
+//@   ensures  @C16,C08 illegal:: implies(result.tokenType == token.ILLEGAL, l.pos == s + 1)
+//@   ensures  @C16,C08 end:: implies(isEndTok(result), endOK(l, s))
+//@   ensures  @C16,C08 endmarker:: implies(isEndTok(result), result == l.EOLEOF())
 //@   ensures  atend:: implies(old(l.pos) >= len(l.input) || l.input[old(l.pos)] == 0, isEndTok(result))
+//@   safety C16 C08
 //@   property C16 C08
 
 // EOLEOF (C15): the only place where the lexer's mode is consulted (see the read audit in govc/prop_c15.go).
